@@ -87,7 +87,9 @@ func (fr *Frame) flushClosed(st *State) {
 	fc := fr.fc
 	a := fc.get(st, hAlloc)
 	for _, p := range fc.pendingClosed {
-		fc.addFact("true", fc.closedFact(p[0], p[1], a))
+		if cf := fc.closedFact(p[0], p[1], a); cf != "true" {
+			fc.facts = append(fc.facts, Fact{Guard: "true", Term: cf, Class: "closed"})
+		}
 	}
 	fc.pendingClosed = nil
 	for _, v := range fc.pendingVals {
@@ -97,7 +99,9 @@ func (fr *Frame) flushClosed(st *State) {
 	}
 	fc.pendingVals = nil
 	for _, p := range fc.pendingRows {
-		fc.addFact("true", fc.closedRowFact(p[0], p[1], a))
+		if cf := fc.closedRowFact(p[0], p[1], a); cf != "true" {
+			fc.facts = append(fc.facts, Fact{Guard: "true", Term: cf, Class: "closed"})
+		}
 	}
 	fc.pendingRows = nil
 }
@@ -627,8 +631,8 @@ func (fr *Frame) checkInvariants(h *ssa.BasicBlock, li *loopInfo, preds []*ssa.B
 		}
 		for _, inv := range invs {
 			env := fr.specEnv(st, fr.pre, h, over)
-			t := fr.evalBool(inv.E, env)
-			fr.fc.oblige(kind, fmt.Sprintf("loop%d.%s", li.ord, inv.Label), guard, t, h.Instrs[0].Pos(), fr.propsFor(inv.Props))
+			t, sks := fr.evalGoal(inv.E, env)
+			fr.fc.obligeSplit(kind, fmt.Sprintf("loop%d.%s", li.ord, inv.Label), guard, t, h.Instrs[0].Pos(), fr.propsFor(inv.Props), true, sks)
 		}
 	}
 }
@@ -755,12 +759,18 @@ func (fr *Frame) enterLoop(h *ssa.BasicBlock, li *loopInfo, order []*ssa.BasicBl
 		v := fr.havocVal(phi.Type(), "loop_"+phi.Name())
 		fr.env[phi] = v
 		fc.addFact(r, fr.typeFacts(v, st))
+		if _, _, isInt := intInfo(phi.Type()); isInt && !v.IsAg {
+			fc.addCand(v.S)
+			fc.addCand(sApp("+", v.S, "1"))
+			fc.addCand(sApp("+", v.S, "2"))
+		}
 	}
 	// 5. assume invariants
 	if fr.contract != nil && !fr.inlined {
 		for _, inv := range fr.contract.LoopInv[li.ord] {
 			env := fr.specEnv(st, fr.pre, h, nil)
-			fc.addFact(r, fr.evalBool(inv.E, env))
+			t, qs := fr.evalFact(inv.E, env)
+			fc.addFactQ(r, t, qs)
 		}
 	}
 	return st
